@@ -250,3 +250,5 @@ func copyDir(src, dst string) error {
 }
 
 var errTimeout = errors.New("timeout")
+
+func removeAll(p string) { _ = os.RemoveAll(p) }
